@@ -1,5 +1,6 @@
 import Mochi.Model.Broker
 import Mochi.Props.C15
+import Mochi.Lemmas.BrokerSession
 /-!
 # C14 — Session present flag and session takeover behave per clean start
 
@@ -75,3 +76,202 @@ example : (demoB, (run (init {}) (demoTakeover.take 4)).objs.length) ∈ (run (i
 example : indexEntries (run (init {}) demoTakeover).topics = [(demoA, [97]), (demoA, demoShare)] := by decide
 
 end Mochi.Broker
+
+/-! ## Session present, for every sequential history (`Mochi/Lemmas/BrokerSession.lean`) -/
+namespace Mochi.Broker
+open Mochi.Topics
+
+/-- **C14, session present.**  `s` reachable by a sequential history, `conn` a fresh connection number, `k` a CONNECT
+    that is ADMITTED (`refuseCode … = none` in the state where the new client object exists).  The first packet written
+    to `conn` is the CONNACK of the op (`C13_connack_first_seq`); here its fields are pinned:
+
+    * its protocol version is the CONNECT's (`k.ver`), its reason code 0, receive maximum and maximum QoS the server's;
+    * its session-present flag `sp` is true IFF a session is registered under `k.id` in `s` that is not an MQTT 3
+      clean session, AND the CONNECT does not ask for Clean Start — `sp = sessionExisted s k.id && !k.clean`;
+    * no other CONNACK is written to `conn`. -/
+theorem C14_session_present_iff_seq (caps : Caps) (s : Server) (hr : ReachSeq caps s) (conn : Nat) (k : Connect)
+    (hf : conn ∉ s.connOf.map (·.1))
+    (hadm : refuseCode (connState s conn k) k (parseConnect s conn k) = none) :
+    ∃ sp seiOut rest,
+      writesTo conn (step s (.connect conn k)).2 =
+        .connack k.ver sp 0 s.caps.receiveMaximum s.caps.maximumQos seiOut :: rest ∧
+      (∀ pk ∈ rest, pk.isConnack = false) ∧
+      (sp = true ↔
+        (∃ e, assocGet s.clients k.id = some e ∧ ¬ ((getObj s e).clean = true ∧ (getObj s e).ver < 5)) ∧
+          k.clean = false) ∧
+      sp = (sessionExisted s k.id && !k.clean) := by
+  obtain ⟨hs, hw, hcm, _⟩ := hr.inv
+  obtain ⟨c', pre, seiOut, post, hc', hto, ho, hnp⟩ := sp14_connect_admitted_out s hs hw hcm conn k hadm hf
+  refine ⟨sessionExisted s k.id && !k.clean, seiOut, writesTo conn post, ?_, writesTo_noConnack hnp, ?_, rfl⟩
+  · rw [ho, writesTo_append, writesTo_append, writesTo_takeover hto hc']
+    simp [writesTo]
+  · unfold sessionExisted
+    cases he : assocGet s.clients k.id with
+    | none => simp
+    | some e => cases hcl : k.clean <;> cases hc : (getObj s e).clean <;> simp [hc]
+
+end Mochi.Broker
+
+namespace Mochi.Broker
+open Mochi.Topics
+
+/-- Clean Start never resumes; neither does a CONNECT over an MQTT 3 clean session (`C14_v3_clean_not_resumable`) -/
+theorem C14_discard_of_clean (s : Server) (k : Connect) (h : k.clean = true) :
+    (sessionExisted s k.id && !k.clean) = false := by rw [h]; simp
+
+/-- **C14, Clean Start discards / no Clean Start inherits.**  `s` reachable by a sequential history, `conn` fresh, `k`
+    admitted; `i = s.objs.length` the new client object, `A` the state right after `Clients.Add` (`inheritClientSession`
+    done, the object registered — `C13_admitted_registered_seq`), `r` the result of the op.
+
+    * **discarded** (`sessionExisted s k.id && !k.clean = false`: Clean Start, or the registered session is an MQTT 3
+      clean session, or there is none): at `Clients.Add` the new object is exactly the parsed CONNECT's object — no
+      in-flight record, no subscription; at the end of the op it still has no subscription and the topic index holds NO
+      entry (plain or shared) for `k.id`;
+    * **resumed** (`… = true`, `e` the object registered under `k.id` in `s`): at `Clients.Add` the new object's in-flight
+      records are EXACTLY the old object's, its subscription map is the old one re-subscribed in order
+      (`sp14_inheritSubs`) — equal to the old map when that has no duplicate key; at the end of the op the
+      subscription map is still that one.
+
+    The in-flight records at the END of the op are not claimed: in between, the taken-over connection's will is
+    published (possibly to the resumed session itself), `ResendInflightMessages` drops the PUBACK / PUBCOMP records it
+    resent, and the barrier releases a deferred message. -/
+theorem C14_clean_start_discards_seq (caps : Caps) (s : Server) (hr : ReachSeq caps s) (conn : Nat) (k : Connect)
+    (hf : conn ∉ s.connOf.map (·.1))
+    (hadm : refuseCode (connState s conn k) k (parseConnect s conn k) = none) :
+    let i := s.objs.length
+    let A := (admitA (connState s conn k) i k).1
+    let r := step s (.connect conn k)
+    ((sessionExisted s k.id && !k.clean) = false →
+      getObj A i = parseConnect s conn k ∧ (getObj A i).inflight = [] ∧ (getObj A i).subs = [] ∧
+      (getObj r.1 i).subs = [] ∧ ∀ f, (k.id, f) ∉ indexEntries r.1.topics) ∧
+    (∀ e, assocGet s.clients k.id = some e → (sessionExisted s k.id && !k.clean) = true →
+      (getObj A i).inflight = (getObj s e).inflight ∧
+      (getObj A i).subs = sp14_inheritSubs (getObj s e).subs [] ∧
+      (((getObj s e).subs.map (·.1)).Nodup → (getObj A i).subs = (getObj s e).subs) ∧
+      (getObj r.1 i).subs = (getObj A i).subs) := by
+  intro i A r
+  obtain ⟨hs, hw, _, hn⟩ := hr.inv
+  obtain ⟨_, C, _, _, _, S, _, _, F, R, _, _⟩ := sp14_step_connect_admitted s hs hw conn k hf hadm
+  rw [sp14_present_eq] at F R
+  have hw' : WF r.1 := WF_step s (.connect conn k) hw hf
+  have hs' : SyncInv r.1 := SyncInv_step s (.connect conn k) hs hw hf (hn.schedOK _)
+  constructor
+  · intro hd
+    have hA : getObj A i = parseConnect s conn k := F hd
+    have hsub : (getObj r.1 i).subs = [] := by
+      show (getObj (step s (.connect conn k)).1 s.objs.length).subs = []
+      rw [S]
+      show (getObj A i).subs = []
+      rw [hA]; rfl
+    refine ⟨hA, by rw [hA]; rfl, by rw [hA]; rfl, hsub, ?_⟩
+    refine hs'.indexSync.no_entry_of_no_subs k.id ?_
+    intro j hj
+    have e1 := assocGet_of_mem_nodup _ _ _ hw'.clients_nodup hj
+    have e2 : assocGet r.1.clients k.id = some i := by
+      show assocGet (step s (.connect conn k)).1.clients k.id = _
+      rw [C, assocGet_assocSet]; simp only [if_true]; rfl
+    rw [e1] at e2
+    cases e2
+    exact hsub
+  · intro e he hp
+    obtain ⟨r1, r2⟩ := R e he hp
+    refine ⟨r1, r2, fun hnd => ?_, S⟩
+    rw [r2]
+    exact sp14_inheritSubs_eq _ (fun fs hfs => ((hs.key e) fs hfs).1) hnd
+
+end Mochi.Broker
+
+/-! ## Non-vacuity: a resumed session, a Clean Start over it, a refused CONNECT at the limit -/
+namespace Mochi.Broker
+open Mochi.Topics
+
+/-- limit 2.  `c1` (MQTT 5, session expiry 100) subscribes to `a` with QoS 1; `c2` publishes to `a` with QoS 1 — `c1`
+    holds an unacknowledged in-flight record; `c1`'s connection is lost: its session stays registered (object 1) -/
+def c14History : List Op :=
+  [.connect 1 { ver := 5, clean := false, id := [99, 49], sei := some 100 },
+   .recv 1 (.subscribe 5 0 [{ filter := [97], qos := 1 }]),
+   .connect 2 { ver := 4, id := [99, 50] },
+   .recv 2 (.publish 1 false false 7 [97] [1] 0 none),
+   .drop 1]
+
+def c14Caps : Caps := { maximumClients := 2 }
+def c14State : Server := run (init c14Caps) c14History
+/-- `c1` again, without Clean Start -/
+def c14Resume : Connect := { ver := 5, clean := false, id := [99, 49], sei := some 100 }
+/-- `c1` again, with Clean Start -/
+def c14Clean : Connect := { ver := 5, clean := true, id := [99, 49] }
+
+theorem c14State_reach : ReachSeq c14Caps c14State := ReachSeq.init.run c14History (by decide) (by decide)
+
+example : assocGet c14State.clients [99, 49] = some 1 ∧ (getObj c14State 1).inflight.length = 1 ∧
+    (getObj c14State 1).subs.map (·.1) = [[97]] ∧ c14State.objs.length = 3 := by decide
+
+/-- **resumed**: both CONNECTs are admitted on the fresh connection 3 -/
+theorem c14Resume_admitted : refuseCode (connState c14State 3 c14Resume) c14Resume (parseConnect c14State 3 c14Resume) = none := by
+  decide
+theorem c14Clean_admitted : refuseCode (connState c14State 3 c14Clean) c14Clean (parseConnect c14State 3 c14Clean) = none := by
+  decide
+
+/-- the resumed session: session present 1, then the in-flight PUBLISH is resent with DUP -/
+example : (writesTo 3 (step c14State (.connect 3 c14Resume)).2).map (fun pk => match pk with
+      | .connack v sp c _ _ _ => (0, v, sp, c)
+      | .publish _ m _ => (1, m.id, m.dup, m.qos)
+      | _ => (2, 0, false, 0)) = [(0, 5, true, 0), (1, 1, true, 1)] := by decide
+/-- Clean Start over it: session present 0, nothing else; no index entry for `c1` afterwards -/
+example : writesTo 3 (step c14State (.connect 3 c14Clean)).2 = [.connack 5 false 0 1024 2 none] ∧
+    indexEntries (step c14State (.connect 3 c14Clean)).1.topics = [] ∧
+    indexEntries (step c14State (.connect 3 c14Resume)).1.topics = [([99, 49], [97])] := by decide
+
+/-- `C14_session_present_iff_seq` instantiated: session present is true for the resuming CONNECT … -/
+example : ∃ sp seiOut rest, writesTo 3 (step c14State (.connect 3 c14Resume)).2 = .connack 5 sp 0 1024 2 seiOut :: rest ∧
+    (∀ pk ∈ rest, pk.isConnack = false) ∧ sp = true := by
+  obtain ⟨sp, seiOut, rest, h1, h2, _, h4⟩ :=
+    C14_session_present_iff_seq c14Caps c14State c14State_reach 3 c14Resume (by decide) c14Resume_admitted
+  exact ⟨sp, seiOut, rest, h1, h2, h4.trans (by decide)⟩
+/-- … and false for the one with Clean Start -/
+example : ∃ sp seiOut rest, writesTo 3 (step c14State (.connect 3 c14Clean)).2 = .connack 5 sp 0 1024 2 seiOut :: rest ∧
+    (∀ pk ∈ rest, pk.isConnack = false) ∧ sp = false := by
+  obtain ⟨sp, seiOut, rest, h1, h2, _, h4⟩ :=
+    C14_session_present_iff_seq c14Caps c14State c14State_reach 3 c14Clean (by decide) c14Clean_admitted
+  exact ⟨sp, seiOut, rest, h1, h2, h4.trans (by decide)⟩
+
+/-- `C14_clean_start_discards_seq` instantiated: the resumed object 3 has object 1's record and subscription map … -/
+example : (getObj (admitA (connState c14State 3 c14Resume) 3 c14Resume).1 3).inflight = (getObj c14State 1).inflight ∧
+    (getObj (admitA (connState c14State 3 c14Resume) 3 c14Resume).1 3).subs = (getObj c14State 1).subs ∧
+    (getObj c14State 1).inflight ≠ [] ∧ (getObj c14State 1).subs ≠ [] := by
+  obtain ⟨a, _, c, _⟩ := (C14_clean_start_discards_seq c14Caps c14State c14State_reach 3 c14Resume (by decide)
+    c14Resume_admitted).2 1 (by decide) (by decide)
+  exact ⟨a, c (by decide), by decide, by decide⟩
+/-- … the Clean Start object 3 has nothing, and the index no entry for `c1` -/
+example : (getObj (step c14State (.connect 3 c14Clean)).1 3).subs = [] ∧
+    ∀ f, ([99, 49], f) ∉ indexEntries (step c14State (.connect 3 c14Clean)).1.topics := by
+  obtain ⟨_, _, _, d, e⟩ := (C14_clean_start_discards_seq c14Caps c14State c14State_reach 3 c14Clean (by decide)
+    c14Clean_admitted).1 (by decide)
+  exact ⟨d, e⟩
+
+end Mochi.Broker
+
+namespace Mochi.Broker
+open Mochi.Topics
+
+/-- **why the in-flight records are pinned at `Clients.Add`, not at the end of the op (Go behaviour).**  `c1` (will on
+    `a`, QoS 1) is subscribed to `a` with QoS 1 and holds no in-flight record; it connects again without Clean Start
+    while still connected: the old connection is taken over, its will is published (`attachClient`'s tail of the old
+    handler: /repo/server.go:574 `DisconnectClient(existing, ErrSessionTakenOver)`, :487 `s.sendLWT(cl)`) and delivered to the RESUMED
+    session: at `Clients.Add` the new object has the old object's (zero) records, at the end of the op it has one. -/
+theorem C14_inflight_end_of_op_counterexample :
+    let h : List Op :=
+      [.connect 1 { ver := 5, clean := false, id := [99, 49], sei := some 100,
+                    will := some { topic := [97], payload := [119], qos := 1 } },
+       .recv 1 (.subscribe 5 0 [{ filter := [97], qos := 1 }])]
+    let k : Connect := { ver := 5, clean := false, id := [99, 49], sei := some 100 }
+    let s := run (init {}) h
+    (getObj s 1).inflight.length = 0 ∧
+    (getObj (admitA (connState s 2 k) 2 k).1 2).inflight.length = 0 ∧
+    (getObj (step s (.connect 2 k)).1 2).inflight.length = 1 := by decide
+
+end Mochi.Broker
+
+#print axioms Mochi.Broker.C14_session_present_iff_seq
+#print axioms Mochi.Broker.c14State_reach
+#print axioms Mochi.Broker.C14_clean_start_discards_seq
